@@ -99,15 +99,16 @@ def run_tlc(module: str | Path, cfg: Path, *, workdir: Path, workers: int | str 
             simulate: str | None = None, depth: int | None = None, seed: int | None = None,
             coverage: bool = False, dump_dot: Path | None = None, env: dict | None = None,
             timeout: float = 3600, xss: str = "64m", heap: str | None = None,
-            extra: list[str] | None = None, dfs_queue: bool = False) -> TlcResult:
+            extra: list[str] | None = None, dfs_queue: bool = False, gc: str | None = None) -> TlcResult:
     """`module` is a module name in spec/ or a path to a generated root module."""
     module = Path(module)
     if not module.suffix:
         module = SPEC_DIR / (module.name + ".tla")
     meta = workdir / f"meta-{module.stem}-{os.getpid()}-{time.monotonic_ns()}"
-    cmd = ["java", "-XX:+UseParallelGC", f"-Xss{xss}"]
-    if heap:
-        cmd.append(f"-Xmx{heap}")
+    if gc is None:
+        gc = "serial" if str(workers) == "1" else "parallel"
+    cmd = ["java", "-XX:+UseSerialGC" if gc == "serial" else "-XX:+UseParallelGC", f"-Xss{xss}"]
+    cmd.append(f"-Xmx{heap or ('3g' if gc == 'serial' else '12g')}")
     cmd += [f"-DTLA-Library={SPEC_DIR}"]
     if dfs_queue:
         cmd.append("-Dtlc2.tool.queue.IStateQueue=StateDeque")
